@@ -451,12 +451,54 @@ def normalize_item(text, log):
 
 # ------------------------------------------------------------------ merge
 
+_RUST_KEYWORDS = set('as break const continue crate else enum extern false fn for if impl in let loop match mod move mut pub ref return self Self static struct super trait true type unsafe use where while async await dyn'.split())
+
+
+def _consistent_renames(old, new):
+    """identifier renamings implied by equal-length `replace` blocks of the token alignment: {old_name: new_name},
+    kept only if the mapping is one-to-one, the old name is gone from the new text and the new name is fresh"""
+    sm = difflib.SequenceMatcher(a=[t.text for t in old], b=[t.text for t in new], autojunk=False)
+    cand = {}
+    bad = set()
+    for tag, i1, i2, j1, j2 in sm.get_opcodes():
+        if tag != 'replace' or (i2 - i1) != (j2 - j1):
+            continue
+        for k in range(i2 - i1):
+            a, b = old[i1 + k], new[j1 + k]
+            if a.text == b.text:
+                continue
+            if a.kind == 'ident' and b.kind == 'ident' and a.text not in _RUST_KEYWORDS and b.text not in _RUST_KEYWORDS:
+                if cand.setdefault(a.text, b.text) != b.text:
+                    bad.add(a.text)
+    old_names = set(t.text for t in old if t.kind == 'ident')
+    new_names = set(t.text for t in new if t.kind == 'ident')
+    out = {}
+    targets = {}
+    for a, b in cand.items():
+        if a in bad or a in new_names or b in old_names:
+            continue
+        targets.setdefault(b, []).append(a)
+        out[a] = b
+    for b, srcs in targets.items():
+        if len(srcs) > 1:
+            for a in srcs:
+                out.pop(a, None)
+    return out
+
+
 def merge(annotated_code, anns, new_code, body_hints=True):
     """place annotations (given relative to annotated_code) into new_code"""
     old = [t for t in lex(annotated_code) if t.code]
     new_all = lex(new_code)
     new = [t for t in new_all if t.code]
-    sm = difflib.SequenceMatcher(a=[t.text for t in old], b=[t.text for t in new], autojunk=False)
+    # A consistently renamed identifier (every occurrence of `a` became `b`, `b` is new, `a` is gone) is a harmless edit:
+    # the annotations follow the renaming instead of being dropped for naming a variable that no longer exists.
+    ren = _consistent_renames(old, new)
+    if ren:
+        pat = re.compile(r'\b(%s)\b' % '|'.join(re.escape(k) for k in ren))
+        anns = [(k, pat.sub(lambda m: ren[m.group(1)], txt), off) for (k, txt, off) in anns]
+    sm = difflib.SequenceMatcher(a=[ren.get(t.text, t.text) if t.kind == 'ident' else t.text for t in old],
+                                 b=[t.text for t in new], autojunk=False)
     o2n = {}
     drift = 0
     for tag, i1, i2, j1, j2 in sm.get_opcodes():
@@ -490,6 +532,10 @@ def merge(annotated_code, anns, new_code, body_hints=True):
                 k -= 1
             j = (o2n[k] + 1) if k >= 0 else 0
             lost += 1
+            if kind != 'inline' and not _is_clause(txt):
+                # a proof hint whose anchor statement changed is dropped rather than placed approximately (a misplaced
+                # assertion could fail for no semantic reason); clauses are still placed or reported below
+                continue
         if not body_hints and not _is_signature_level(new, j, txt):
             lost += 1
             continue
@@ -995,12 +1041,13 @@ def build(entries, verify_units, repo=None, extra_false_ensures=False, no_body_h
             if lost and any(c.split()[0] in ('requires', 'ensures') for c in merge.last_lost_clauses):
                 # a contract clause (not a proof hint) lost its anchor: never verify silently without it
                 raise GenError('%s: contract clause lost its anchor after a source change: %s' % (e.key, merge.last_lost_clauses))
-            if lost or (drift and e.key in no_body_hints):
-                # a hint could not be placed (or, on retry, the changed item did not compile with its hints): later
-                # hints may depend on ghost variables of lost ones, so all body-level hints of this item are dropped;
+            if drift and e.key in no_body_hints:
+                # on retry: the changed item did not compile with the hints that could still be placed (a kept hint
+                # depends on a ghost variable of a lost one): all body-level hints of this item are dropped;
                 # contracts (fn-level clauses) stay
                 merged, hoisted, drift, lost = merge(code, anns, new_code, body_hints=False)
                 lost = max(lost, 1)
+            if lost:
                 # loops lost their decreases clauses with the hints: termination of this item is then not checked
                 merged = allow_no_decreases(merged)
             variants = [(merged, hoisted, '')]
